@@ -147,7 +147,10 @@ fn std_core() -> FunctionMap {
     });
 
     // return a random integer from a to b including a and b
-    std_function!(functions => fn RANDOM(a: Value::Number, b: Value::Number) {
+    std_function!(functions => fn RANDOM [ctx] (a: Value::Number, b: Value::Number) {
+        if a as i64 > b as i64 {
+            return Err(ctx.error(0, "Invalid Range", "RANDOM(a, b) requires a <= b", "The lower bound is greater than the upper bound"))
+        }
         let mut rng = rand::rng();
         let result = rng.random_range(a as i64..=b as i64);
 
